@@ -441,6 +441,26 @@ func checkC05(w *fw.Worker, in c05Input, cli bool) *fw.Violation {
 		if stdout != "" || stderr == "" || code == 0 {
 			return viol("cli", "evy run of a rejected program", fmt.Sprintf("stdout=%q stderr=%q exit=%d", stdout, stderr, code))
 		}
+		// with --svg-out nothing is drawn for a rejected program either: no document on stdout, no file created or overwritten
+		stdout, _, code, err = runEvy([]string{"run", "--svg-out", "-"}, src, "")
+		if err != nil {
+			panic("cannot run the evy binary: " + err.Error())
+		}
+		if stdout != "" || code == 0 {
+			return viol("cli-svg-stdout", "evy run --svg-out - of a rejected program wrote to stdout", fmt.Sprintf("stdout=%q exit=%d", fw.Trunc(stdout, 200), code))
+		}
+		dir, derr := os.MkdirTemp(os.Getenv("VERIF_BUILD_DIR"), "svgrej-")
+		if derr != nil {
+			panic(derr)
+		}
+		defer os.RemoveAll(dir)
+		out := filepath.Join(dir, "out.svg")
+		const earlier = "<svg>earlier drawing</svg>\n"
+		os.WriteFile(out, []byte(earlier), 0o644)
+		_, _, code, _ = runEvy([]string{"run", "--svg-out", out}, src, "")
+		if b, _ := os.ReadFile(out); string(b) != earlier || code == 0 {
+			return viol("cli-svg-file", "evy run --svg-out FILE of a rejected program touched the file", fmt.Sprintf("file=%q exit=%d", fw.Trunc(string(b), 200), code))
+		}
 	}
 	return nil
 }
